@@ -20,13 +20,22 @@ def reset_process_state() -> None:
     """Restore the process-wide state ExaBGP keeps on classes/modules to its import-time value."""
     from exabgp.rib import RIB
 
-    RIB._cache.clear()
+    cache = getattr(RIB, '_cache', None)
+    if isinstance(cache, dict):
+        cache.clear()
+    else:
+        # the class-level table of RIBs by neighbor name, whatever it is called
+        for v in vars(RIB).values():
+            if isinstance(v, dict) and all(isinstance(x, RIB) for x in v.values()):
+                v.clear()
     try:
         # multi-line "group start" blocks are buffered per API process name at module level
         from exabgp.reactor.api.command import group as _group
 
-        _group._GROUP_BUFFERS.clear()
-        _group._GROUP_BYTES.clear()
+        for v in vars(_group).values():
+            # the per-process buffers of open group blocks (module-level dicts keyed by process name)
+            if isinstance(v, dict) and v and all(isinstance(k, str) for k in v) and not any(callable(x) for x in v.values()):
+                v.clear()
     except Exception:
         pass
     try:
